@@ -172,4 +172,58 @@ theorem throw_dispatch_after_resume_matches_spec (ex : Nat) (spOf : Nat → Nat)
   · exact handleThrow_matches_spec ex spOf (shiftFrame vm2) (shiftFrame_handlers vm2) k _ vm2.tryStack h (by simp [rebase, hk]) hs
   · exact handleThrow_matches_spec ex spOf (shiftFrame lo) (shiftFrame_handlers lo) k _ lo.tryStack h (by simp [rebase, hk]) hs
 
+/-- Return dispatch: on the layout of ANY spec continuation `k` (all frames pushed in the generator's own function
+frame), `enterNextFinallyFrame` enters the finally block of the innermost frame that has a pending one — the block
+the spec's unwinding of a return completion enters — skipping (popping) the frames without one. -/
+theorem enterNextFinallyFrame_matches_spec (spOf : Nat → Nat) (f : TryFrame → TryFrame) (C : Nat)
+    (hf : ∀ tf, (f tf).finallyPos = tf.finallyPos ∧ (f tf).callStackLen = C) (k : List Frame) :
+    ∀ (vm : VM) (lo : List TryFrame) (cl : List Nat) (i : Nat), vm.callStack.length = C →
+      vm.tryStack = lo ++ (encode spOf k).map f → specReturnHandler k = some i →
+      (enterNextFinallyFrameLoop [] vm.tryStack.length vm cl).1 = true ∧
+      (enterNextFinallyFrameLoop [] vm.tryStack.length vm cl).2.2.cur.pc = 2 * (i : Int) + 1 := by
+  induction k with
+  | nil => intro _ _ _ _ _ _ hs; simp [specReturnHandler] at hs
+  | cons fr k ih =>
+    intro vm lo cl i hC hvm hs
+    have fin : ∀ tf, vm.tryStack = (lo ++ (encode spOf k).map f) ++ [f tf] → tf.finallyPos = 2 * (countTryish k : Int) + 1 →
+        i = countTryish k →
+        (enterNextFinallyFrameLoop [] vm.tryStack.length vm cl).1 = true ∧
+        (enterNextFinallyFrameLoop [] vm.tryStack.length vm cl).2.2.cur.pc = 2 * (i : Int) + 1 := by
+      intro tf h1 h2 h3
+      have hl : vm.tryStack.length = (lo ++ (encode spOf k).map f).length + 1 := by simp [h1]; omega
+      rw [hl, enf_top_fin _ vm _ (f tf) cl h1 (by rw [(hf tf).2, hC]) (by rw [(hf tf).1, h2]; omega)]
+      simp [(hf tf).1, h2, h3]
+    have skip : ∀ tf, vm.tryStack = (lo ++ (encode spOf k).map f) ++ [f tf] → tf.finallyPos = -1 → specReturnHandler k = some i →
+        (enterNextFinallyFrameLoop [] vm.tryStack.length vm cl).1 = true ∧
+        (enterNextFinallyFrameLoop [] vm.tryStack.length vm cl).2.2.cur.pc = 2 * (i : Int) + 1 := by
+      intro tf h1 h2 h3
+      have hl : vm.tryStack.length = (lo ++ (encode spOf k).map f).length + 1 := by simp [h1]; omega
+      rw [hl, enf_top_skip _ vm _ (f tf) cl h1 (by rw [(hf tf).2, hC]) (by rw [(hf tf).1, h2]; omega)]
+      have := ih { (restoreStacks vm (f tf).iterLen (f tf).refLen).2 with tryStack := lo ++ (encode spOf k).map f } lo
+        (cl ++ (restoreStacks vm (f tf).iterLen (f tf).refLen).1) i (by simpa [restoreStacks] using hC) rfl h3
+      simpa using this
+    cases fr with
+    | tryK cc fin' =>
+      cases cc with
+      | some c =>
+        cases fin' with
+        | some fb =>
+          simp only [specReturnHandler, Option.some.injEq] at hs
+          exact fin (mkTF spOf (countTryish k) (countForOf k) (2 * (countTryish k : Int)) (2 * (countTryish k : Int) + 1)) (by simp [hvm, encode, frameOf]) rfl hs.symm
+        | none => exact skip (mkTF spOf (countTryish k) (countForOf k) (2 * (countTryish k : Int)) (-1)) (by simp [hvm, encode, frameOf]) rfl (by simpa [specReturnHandler] using hs)
+      | none =>
+        cases fin' with
+        | some fb =>
+          simp only [specReturnHandler, Option.some.injEq] at hs
+          exact fin (mkTF spOf (countTryish k) (countForOf k) (-1) (2 * (countTryish k : Int) + 1)) (by simp [hvm, encode, frameOf]) rfl hs.symm
+        | none => exact skip (mkTF spOf (countTryish k) (countForOf k) (-1) (-1)) (by simp [hvm, encode, frameOf]) rfl (by simpa [specReturnHandler] using hs)
+    | catchK fin' =>
+      cases fin' with
+      | some fb =>
+        simp only [specReturnHandler, Option.some.injEq] at hs
+        exact fin (mkTF spOf (countTryish k) (countForOf k) (-1) (2 * (countTryish k : Int) + 1)) (by simp [hvm, encode, frameOf]) rfl hs.symm
+      | none => exact skip (mkTF spOf (countTryish k) (countForOf k) (-1) (-1)) (by simp [hvm, encode, frameOf]) rfl (by simpa [specReturnHandler] using hs)
+    | finK p => exact skip (mkTF spOf (countTryish k) (countForOf k) (-1) (-1)) (by simp [hvm, encode, frameOf]) rfl (by simpa [specReturnHandler] using hs)
+    | _ => exact ih vm lo cl i hC (by simpa [encode, frameOf] using hvm) (by simpa [specReturnHandler] using hs)
+
 end GojaModel.C09.Link
